@@ -17,21 +17,19 @@ COQ_FILES = [f for f in COQ_FILES if os.path.exists(os.path.join(vlib.COQ, "theo
 MODES = {
     "props": {
         "type": "pcase", "model_ok": "pcase_model_ok", "spec_ok": "pcase_spec_ok", "spec_full": "pcase_spec_full",
-        "domains": ["(fun c => d_total (pc_s1 c) (pc_s2 c))", "(fun c => d_sound (pc_s1 c))"],
-        "domain_names": ["d_total", "d_sound"],
+        "domains": ["(fun c => has_placeholder (pc_s1 c))"],
+        "domain_names": ["s1_has_placeholder"],
         "corr": "maven.generatePropertyPatches (Go) vs Writers.PomProps.generate_property_patches (Coq, vm_compute)",
-        "theorems": ["prop_patches_sound_on_D", "prop_patches_sound_refuted", "prop_patches_total_on_D",
-                     "prop_patches_total_refuted", "prop_patches_total_refuted_suffix", "prop_patches_fuel_sufficient"],
+        "theorems": ["prop_patches_sound", "prop_patches_total", "prop_patches_fuel_sufficient"],
         "quick": 1500, "thorough": 30000, "per": 150,
     },
     "pkgjson": {
         "type": "jcase", "model_ok": "jcase_model_ok", "spec_ok": "jcase_spec_ok", "spec_full": "jcase_spec_full",
-        "domains": ["jcase_in_fragment", "jcase_safe_names"],
-        "domain_names": ["in_modelled_fragment", "safe_names"],
-        "corr": "npm readWriter.Write (Go, gjson/sjson) vs Writers.PkgJson.write_pkgjson (Coq, vm_compute)",
-        "theorems": ["pkgjson_write_exact_on_safe_names", "pkgjson_only_values_change", "pkgjson_reread_exact",
-                     "pkgjson_no_updates_identity", "pkgjson_success_implies_applied_on_safe_names",
-                     "pkgjson_dotted_name_dropped_refuted", "pkgjson_wildcard_name_refuted"],
+        "domains": ["jcase_in_fragment", "jcase_supported_names", "jcase_escaped_names", "jcase_claimed"],
+        "domain_names": ["in_modelled_fragment", "names_supported_by_escape", "some_name_needs_escaping", "claimed"],
+        "corr": "npm readWriter.Write (Go, gjson/sjson, escaped path) vs Writers.PkgJson.write_pkgjson (Coq, vm_compute)",
+        "theorems": ["pkgjson_write_exact", "pkgjson_only_values_change", "pkgjson_reread_exact",
+                     "pkgjson_no_updates_identity", "pkgjson_success_implies_applied"],
         "quick": 800, "thorough": 20000, "per": 50,
     },
     "pom": {
@@ -39,7 +37,7 @@ MODES = {
         "domains": ["mcase_in_domain"],
         "domain_names": ["pom_domain"],
         "corr": "maven readWriter.Write panics (Go) vs Writers.PomWriter.write_panics over the generatePropertyPatches calls of buildPatches (Coq, vm_compute)",
-        "theorems": ["pom_write_never_panics_on_D", "pom_write_panics_refuted"],
+        "theorems": ["pom_write_never_panics"],
         "quick": 500, "thorough": 6000, "per": 25,
     },
 }
@@ -59,16 +57,16 @@ META = {
     "technique": "Coq model of the byte/token-level writers (generatePropertyPatches with panic-capable slices, the gjson/sjson path "
                  "edits of the package.json writer, the pom.xml token rewriter) + proofs of exactness/identity/no-panic on characterised "
                  "domains + refutations by vm_compute witness + vm_compute correspondence and round-trip oracle against the real writers",
-    "level_text": "Theorems prop_patches_sound_on_D / prop_patches_total_on_D (generatePropertyPatches: reported success means the "
-                  "property values interpolate s1 to s2; no slice panic) and their refutations on the full input space "
-                  "(prop_patches_sound_refuted: repeated placeholder; prop_patches_total_refuted: target shorter than the literal "
-                  "prefix/suffix); pkgjson_write_exact_on_safe_names, pkgjson_no_updates_identity and "
-                  "pkgjson_dotted_name_dropped_refuted (package.json: exact byte-level effect of Write for gjson-path-safe names; dotted "
-                  "names are silently skipped with success reported); the models are tied to the code on every run by vm_compute on the "
-                  "inputs the real functions were run on; PARTIAL for pom.xml: only 'Write panics iff a generatePropertyPatches call "
-                  "panics' is modelled (pom_write_never_panics_on_D), the token-level rewrite and origin selection are decided by the "
-                  "round-trip oracle only (encoding/xml token sequence + re-read requirements); pom_no_updates_identity and "
-                  "pom_tokens_preserved are not proved.",
+    "level_text": "After the two fix commits in /repo: prop_patches_sound / prop_patches_total (generatePropertyPatches, every s1 s2: "
+                  "reported success means the property values interpolate s1 to s2; no slice panic) at full strength; "
+                  "pkgjson_write_exact, pkgjson_only_values_change, pkgjson_reread_exact, pkgjson_no_updates_identity, "
+                  "pkgjson_success_implies_applied (package.json: exact byte-level effect of Write for every name -- dots, wildcards, "
+                  "scopes, pipes -- except the stated residual: names starting with ':', which gjson.Escape does not cover); the models "
+                  "are tied to the code on every run by vm_compute on the inputs the real functions were run on; the witnesses of the "
+                  "eight fixed findings run first as a regression corpus judged at full strength. PARTIAL for pom.xml: only 'Write "
+                  "panics iff a generatePropertyPatches call panics' is modelled (pom_write_never_panics), the token-level rewrite and "
+                  "origin selection are decided by the round-trip oracle only (encoding/xml token sequence, re-read requirements, "
+                  "effective declaration versions); pom_no_updates_identity and pom_tokens_preserved are not proved.",
     "level_note": "Trusted: Coq kernel + vm_compute; Go harness harness/cmd/writers (generators, encoding/json and encoding/xml as "
                   "decoders for the oracle); gjson/sjson are modelled on the fragment documented in PkgJson.v (keys outside it are "
                   "excluded from the model comparison but not from the oracle); hooks guidedremediation/verif_export_c13.go and "
@@ -184,6 +182,58 @@ def replay_known(ctx, binp, mode):
     return res
 
 
+def fixed_entries(mode):
+    """Entries of KNOWN_FINDINGS.d/C13.json with status fixed: their witnesses are the regression corpus."""
+    try:
+        k = json.load(open(os.path.join(vlib.VERIF, "KNOWN_FINDINGS.d", "C13.json")))
+    except FileNotFoundError:
+        return []
+    return [e for e in k if e.get("property") == "C13" and e.get("status") == "fixed" and e.get("mode") == mode]
+
+
+def run_regression(ctx, binp, mode):
+    """Regression corpus: witnesses of fixed findings, run first, judged at FULL strength (no domain):
+    model = implementation and the full statement holds on the implementation's own output. Nothing is
+    printed as KNOWN-FINDING for them; a failure is a VIOLATION carrying the old witness."""
+    cfg = MODES[mode]
+    entries = fixed_entries(mode)
+    if not entries:
+        return []
+    d = os.path.join(vlib.BUILD, "cases")
+    os.makedirs(d, exist_ok=True)
+    terms = []
+    for n, e in enumerate(entries):
+        wp = os.path.join(d, "C13_regr_%s_%d.json" % (mode, n))
+        json.dump(e["witness"], open(wp, "w"))
+        rc, out = vlib.sh([binp, "-mode", mode, "-replay", wp], timeout=120)
+        m = [l for l in out.splitlines() if l.startswith("coq-case: ")]
+        if rc != 0 or not m:
+            raise RuntimeError("regression replay failed (%s): %s" % (e["id"], out[-800:]))
+        terms.append(m[0][len("coq-case: "):])
+    v = HEADERS[mode] + "Definition ks : list %s :=\n [ %s ].\n" % (cfg["type"], ";\n   ".join(terms))
+    v += ("Definition r_corr_bad := Eval vm_compute in bad_indices %s ks 0.\nPrint r_corr_bad.\n"
+          "Definition r_full_bad := Eval vm_compute in bad_indices %s ks 0.\nPrint r_full_bad.\n"
+          % (cfg["model_ok"], cfg["spec_full"]))
+    rc, out = ctx.run_cases("C13_regr_%s" % mode, v)
+    rc_bad = vlib.parse_printed_list(out, "r_corr_bad")
+    rf_bad = vlib.parse_printed_list(out, "r_full_bad")
+    if rc != 0 or rc_bad is None or rf_bad is None:
+        raise RuntimeError("regression evaluation failed: " + out[-1500:])
+    res = []
+    for n, e in enumerate(entries):
+        ok_full, ok_model = n not in rf_bad, n not in rc_bad
+        res.append({"id": e["id"], "fix_commit": e.get("fix_commit"), "full_statement_holds": ok_full, "model_agrees": ok_model})
+        if not ok_full:
+            ctx.violation({"kind": "spec-failure", "regression_of": e["id"], "fix_commit": e.get("fix_commit"),
+                           "case": dict(e["witness"], mode=mode),
+                           "explanation": "the witness of a FIXED finding fails the full statement again: the defect is back"})
+        elif not ok_model:
+            ctx.violation({"kind": "correspondence-broken", "regression_of": e["id"], "correspondence": cfg["corr"],
+                           "first_mismatch": dict(e["witness"], mode=mode), "theorems_no_longer_tied_to_code": cfg["theorems"],
+                           "explanation": "model and implementation disagree on the witness of a fixed finding"}, nofail=True)
+    return res
+
+
 HEADERS = {
     "props": "From Coq Require Import List ZArith NArith Bool.\nFrom Scalibr Require Import Writers.GoBytes Writers.PomProps.\nImport ListNotations.\n",
     "pkgjson": "From Coq Require Import List ZArith NArith Bool.\nFrom Scalibr Require Import Writers.GoBytes Writers.PkgJson.\nImport ListNotations.\n",
@@ -242,6 +292,11 @@ def run(ctx):
     samples = []
     per_mode = {}
     known_results = []
+    regression_results = []
+    for mode in modes:               # regression corpus first
+        regression_results += run_regression(ctx, binp, mode)
+    ctx.log("regression corpus: %d witnesses of fixed findings, %d failing" % (
+        len(regression_results), sum(1 for r in regression_results if not (r["full_statement_holds"] and r["model_agrees"]))))
     all_corr, all_spec = [], []      # (mode, index)
     all_cases = {}
     for mode in modes:
@@ -299,12 +354,13 @@ def run(ctx):
                     "of every declaration of the pom chain, resolved independently with profile-scoped then project-level properties "
                     "(harness eff.go): exactly the addressed declaration stands for VersionTo, incl. the stream with one property name "
                     "defined in several origins), claimed on "
-                    "the structural domain computed by the harness (flag claimed) intersected with the Coq domains d_total/d_sound",
+                    "the structural domain computed by the harness (flag claimed)",
         "known_findings_results": known_results,
+        "regression_corpus": regression_results,
     })
     ctx.coverage["trusted_base"] = vlib.std_trusted_base(pa, tb_extra)
     ctx.assumptions += [
-        "gjson.GetBytes/sjson.SetBytes behave as PkgJson.path_lookup/path_set on documents and keys inside the modelled fragment "
+        "gjson.GetBytes/sjson.SetBytes/gjson.Escape behave as PkgJson.path_lookup/path_set/escape on documents and keys inside the modelled fragment "
         "(validated on every generated case by the correspondence)",
         "Go map iteration order is irrelevant for generatePropertyPatches (single map, last write wins)",
     ]
